@@ -352,6 +352,79 @@ def gen_udpq(rng, tier):
     return " ".join(c) + "|" + ";".join(ops)
 
 
+def _wname(n):
+    out = b""
+    for label in n.split("."):
+        out += bytes([len(label)]) + label.encode()
+    return out + b"\0"
+
+
+def raw_request(rng, T):
+    """wire bytes of a request whose records REPEAT names (question + authority NS + additional
+    A/TXT/MX sharing owner and suffix, like an RFC 2136 UPDATE or a query with glue): the
+    library's writer compresses them, so every transmission carries compression pointers."""
+    q = "r%dx.sub%d.example" % (T, rng.randint(0, 3))
+    zone = q.split(".", 1)[1]
+    auth = []
+    addl = []
+    ttl = bytes([0, 0, 1, 44])
+    for _ in range(rng.choice([0, 1, 1, 2])):
+        ns = _wname("ns%d.%s" % (rng.randint(1, 3), zone))
+        auth.append(_wname(zone) + bytes([0, 2, 0, 1]) + ttl + bytes([0, len(ns)]) + ns)
+    for _ in range(rng.choice([1, 1, 2, 3])):
+        r = rng.random()
+        if r < 0.35:
+            addl.append(_wname("ns%d.%s" % (rng.randint(1, 3), zone)) + bytes([0, 1, 0, 1]) + ttl + bytes([0, 4, 10, 0, 0, rng.randint(1, 250)]))
+        elif r < 0.65:
+            t = bytes([5]) + b"hello"
+            addl.append(_wname(q) + bytes([0, 16, 0, 1]) + ttl + bytes([0, len(t)]) + t)
+        elif r < 0.85:
+            mx = bytes([0, 10]) + _wname("mail." + zone)
+            addl.append(_wname(q) + bytes([0, 15, 0, 1]) + ttl + bytes([0, len(mx)]) + mx)
+        else:
+            cn = _wname("alias." + q)
+            addl.append(_wname("www." + zone) + bytes([0, 5, 0, 1]) + ttl + bytes([0, len(cn)]) + cn)
+    hdr = bytes([0x12, 0x34, 0x01, 0x00, 0, 1, 0, 0, 0, len(auth), 0, len(addl)])
+    m = hdr + _wname(q) + bytes([0, rng.choice([1, 28, 16]), 0, 1]) + b"".join(auth) + b"".join(addl)
+    return m.hex()
+
+
+def gen_rawq(rng, tier):
+    """requests with repeated names (compression pointers) serialised while earlier bytes are
+    still unsent in the connection's out buffer: batches queued before the TCP connection is
+    established or behind short writes / would-blocks, and on UDP behind a blocked send."""
+    tcp = rng.random() < 0.7
+    c = cfg_common(rng, seg=tcp)
+    flags = ["noedns"]
+    if tcp:
+        flags.insert(0, "usevc")
+    if rng.random() < 0.4:
+        flags.append("stayopen")
+    c.insert(0, "servers=1 flags=%s tries=3 timeout=1000" % ",".join(flags))
+    if tcp and rng.random() < 0.3:
+        c.append("pendingwritecb=1")
+    if rng.random() < 0.4:
+        c.append("sockstatecb=1")
+    ops = ["note fam=rawq"]
+    T = 0
+    for b in range(rng.choice([1, 2, 3])):
+        if not tcp:
+            for i in range(1, rng.choice([1, 2, 3]) + 1):
+                ops.append("fail sendto %d %s" % (i, rng.choice(["EAGAIN", "EWOULDBLOCK"])))
+        for _ in range(rng.choice([2, 2, 3, 4, 5])):
+            T += 1
+            if rng.random() < 0.8:
+                ops.append("sendraw %d %s" % (T, raw_request(rng, T)))
+            else:
+                ops.append("send %d %s IN %s rd" % (T, name(T), rng.choice(TYPES)))
+        ops.extend(RUN)
+        ops.append("rspall " + answer(rng))
+        ops.extend(RUN)
+    ops.append("rspall " + answer(rng))
+    ops.extend(RUN)
+    return " ".join(c) + "|" + ";".join(ops)
+
+
 def hexframe(payload):
     n = len(payload)
     return "%04x" % n + "".join("%02x" % b for b in payload)
@@ -425,8 +498,8 @@ def finish(case):
     out = []
     for op in body.split(";"):
         ws = op.split()
-        if ws and ws[0] == "send":
-            sends += 1
+        if ws and ws[0] in ("send", "sendraw"):
+            sends += 4 if ws[0] == "sendraw" else 1      # raw requests are up to ~4 times as long
         elif ws and ws[0] == "rsp":
             dup = 2 if "dup=2" in op else 1
             rbytes += dup * _answer_size(ws[2] if len(ws) > 2 else "")
@@ -457,8 +530,10 @@ def gen_c20(rng, tier, n):
             c = gen_mixed(rng, tier)
         elif r < 0.82:
             c = gen_multi(rng, tier)
-        elif r < 0.91:
+        elif r < 0.88:
             c = gen_udpq(rng, tier)
+        elif r < 0.95:
+            c = gen_rawq(rng, tier)
         else:
             c = gen_junk(rng, tier)
         if rng.random() < 0.35:
@@ -474,8 +549,10 @@ def gen_frames(rng, tier, n):
     out = []
     for _ in range(n):
         r = rng.random()
-        if r < 0.45:
+        if r < 0.30:
             c = gen_udpq(rng, tier)
+        elif r < 0.60:
+            c = gen_rawq(rng, tier)
         elif r < 0.75:
             c = gen_pure(rng, tier)
         elif r < 0.88:
